@@ -9,7 +9,8 @@ Real side: two or three real Sessions on one SQLite *file* database, four mappin
 variants refining the same abstract model (client counter, user generator that
 returns never-used values, server-side `ver + 1` with version_id_generator=False,
 joined-table inheritance with the version column on the base table and the data
-column on the sub table).  A history is a list of get/set/delete/add/expire/
+column on the sub table; three-level joined inheritance with the data column in the
+base, middle or leaf table).  A history is a list of get/set/delete/add/expire/
 commit/flush+rollback/rollback operations; every session operation is atomic
 w.r.t. the database (pysqlite takes its write lock at the first DML of a flush and
 every flush here is followed by commit or rollback), so op interleavings are all
@@ -41,7 +42,7 @@ META = {
     "design_ref": "DESIGN.md §3 C30–C48 (C44)",
 }
 
-VARIANTS = ("counter", "fresh", "server", "joined")
+VARIANTS = ("counter", "fresh", "server", "joined", "joined3mid", "joined3leaf", "joined3base")
 _WORLDS = {}
 _TMP = None
 
@@ -156,6 +157,9 @@ class World:
         from sqlalchemy import event
         from sqlalchemy.orm import declarative_base
 
+        from harness.lib_orm2 import odd_mixin
+
+        Odd = odd_mixin("id", "val")  # falsy, value-equal instances
         self.sa = sa
         self.variant = variant
         fn = os.path.join(_tmpdir(), variant + ".db")
@@ -167,7 +171,7 @@ class World:
             gstart, gstep = 0, 1
         if variant == "joined":
 
-            class B(Base):
+            class B(Odd, Base):
                 __tablename__ = "b"
                 id = sa.Column(sa.Integer, primary_key=True, autoincrement=False)
                 ver = sa.Column(sa.Integer, nullable=False)
@@ -182,6 +186,44 @@ class World:
 
             self.sql_rows = "select b.id, s.val, b.ver from b join s on b.id = s.id order by b.id"
             self.sql_clear = ["delete from s", "delete from b"]
+        elif variant.startswith("joined3"):
+            # three joined levels Doc -> Report -> AuditReport, version column on the base table;
+            # the one data column the histories change lives in the base / middle / leaf table,
+            # the other levels carry a column that never changes
+            where = variant[len("joined3"):]
+
+            class B(Odd, Base):
+                __tablename__ = "d3"
+                id = sa.Column(sa.Integer, primary_key=True, autoincrement=False)
+                ver = sa.Column(sa.Integer, nullable=False)
+                type = sa.Column(sa.String(10))
+                if where == "base":
+                    val = sa.Column(sa.Integer)
+                else:
+                    bx = sa.Column(sa.Integer, default=0)
+                __mapper_args__ = {"version_id_col": ver, "polymorphic_on": type, "polymorphic_identity": "d"}
+
+            class M(B):
+                __tablename__ = "r3"
+                id = sa.Column(sa.Integer, sa.ForeignKey("d3.id"), primary_key=True)
+                if where == "mid":
+                    val = sa.Column(sa.Integer)
+                else:
+                    mx = sa.Column(sa.Integer, default=0)
+                __mapper_args__ = {"polymorphic_identity": "r"}
+
+            class T(M):
+                __tablename__ = "a3"
+                id = sa.Column(sa.Integer, sa.ForeignKey("r3.id"), primary_key=True)
+                if where == "leaf":
+                    val = sa.Column(sa.Integer)
+                else:
+                    lx = sa.Column(sa.Integer, default=0)
+                __mapper_args__ = {"polymorphic_identity": "a"}
+
+            tab = {"base": "d3", "mid": "r3", "leaf": "a3"}[where]
+            self.sql_rows = "select d3.id, %s.val, d3.ver from d3 join r3 on d3.id = r3.id join a3 on a3.id = d3.id order by d3.id" % tab
+            self.sql_clear = ["delete from a3", "delete from r3", "delete from d3"]
         else:
             if variant == "server":
                 vercol = sa.Column(
@@ -200,7 +242,7 @@ class World:
                 vercol = sa.Column("ver", sa.Integer, nullable=False)
                 margs = {}
 
-            class T(Base):
+            class T(Odd, Base):
                 __tablename__ = "t"
                 id = sa.Column(sa.Integer, primary_key=True, autoincrement=False)
                 val = sa.Column(sa.Integer)
@@ -640,7 +682,7 @@ def small_scope(length):
 def gen_cases(ctx, deep=False):
     thorough = ctx.tier == "thorough" or deep
     # ABA witness of Props/C44 (kept in the stream so the known finding is replayed every run)
-    for variant in ("counter", "server", "joined"):
+    for variant in ("counter", "server", "joined", "joined3mid"):
         yield {"variant": variant, "eoc": 0, "npk": 1, "nsess": 2, "ops": ABA_OPS, "src": "aba"}
         yield {"variant": variant, "eoc": 0, "npk": 1, "nsess": 2, "ops": INSDEL_OPS, "src": "insdel"}
     yield {"variant": "fresh", "eoc": 0, "npk": 1, "nsess": 2, "ops": ABA_OPS, "src": "aba"}
@@ -648,7 +690,7 @@ def gen_cases(ctx, deep=False):
     for i in range(nrand):
         nsess, npk, ops = gen_random(ctx.rng, ctx.tier)
         for variant in VARIANTS:
-            if not thorough and ctx.rng.random() < 0.35:
+            if not thorough and ctx.rng.random() < 0.6:
                 continue
             yield {"variant": variant, "eoc": ctx.rng.choice([0, 0, 1]), "npk": npk, "nsess": nsess, "ops": ops,
                    "flushfirst": ctx.rng.random() < 0.2, "src": "random"}
@@ -687,7 +729,7 @@ def _budget_exhausted(ctx, t0, n):
 def run(ctx, deep=False):
     ctx.rule = (
         "histories of get/set/delete/add/expire/commit/flush+rollback/rollback over 2-3 real Sessions and 1-3 rows on a SQLite file, "
-        "4 mapping variants x expire_on_commit, random (seeded) + every sequence of 2 (quick) / 3 (thorough; 12% of length 4) ops over a 15-letter "
+        "7 mapping variants (incl. 3-level joined inheritance with the changed column in the base / middle / leaf table) x expire_on_commit, random (seeded) + every sequence of 2 (quick) / 3 (thorough; 12% of length 4) ops over a 15-letter "
         "2-session/1-row alphabet after a create+load prefix; a case is non-trivial when at least one commit had something to write"
     )
     ctx.trusted.append("SQLite (file database, pysqlite rowcount) as the executing backend; SQLite serialises writers so session operations are atomic")
